@@ -67,6 +67,16 @@ def materialise(spec, registry=None, module=None, via_hybrid=False):
     if k == "unionref":
         kids = [materialise(t, registry, module) for t in spec["members"]]
         data = {"_reftypes": [kid.cls for kid in kids]}
+        if spec.get("meth"):
+            # a method of the union, dispatched on the member (meth == 1: no extra argument, 2: one); every member class
+            # brings its implementation in its own extra sources
+            un = spec["name"]
+            margs = [] if spec["meth"] == 1 else [xo.Arg(xo.Float64, name="s")]
+            data["_methods"] = [xo.Method(c_name=f"vf_{un}", args=margs, ret=xo.Arg(xo.Float64))]
+            for kid in kids:
+                mn_ = kid.cls.__name__
+                kid.cls._extra_c_sources = list(getattr(kid.cls, "_extra_c_sources", [])) + [
+                    f"/*gpufun*/ double {mn_}_vf_{un}({mn_} obj{', double s' if margs else ''}){{ (void) obj; return 1.0; }}"]
         if module:
             data["__module__"] = module
             data["__qualname__"] = spec["name"]
